@@ -34,6 +34,12 @@ type instructionType struct {
 	// immediate describes an immediate value encoding format in an
 	// instruction.
 	immediate immType
+	// shamtBits is number of bits of shift amount an instruction encodes in
+	// its low bits of I-immediate. Zero means there is no shift amount.
+	shamtBits uint8
+	// zimm is set for instructions which encode a 5 bit unsigned immediate in
+	// place of rs1 register number.
+	zimm bool
 
 	// instrType is set of instruction types of an opcode.
 	instrType model.Type
